@@ -87,15 +87,19 @@ def s8(chk: Check, proj: Project, m, fc) -> None:
     for x in subs:
         dn = x.value.id
         loopv = next((t.id for lp in ast.walk(fc) if isinstance(lp, ast.For) and any(y is x for y in ast.walk(lp)) for t in ast.walk(lp.target) if isinstance(t, ast.Name)), None)
-        lin = _linear(fc, x.slice, {"positional_count", loopv or "i"})
+        P = next((t.id for st in stmts(fc) if isinstance(st, ast.Assign) and isinstance(st.targets[0], ast.Name) and isinstance(st.value, ast.Attribute) and st.value.attr == "co_argcount" for t in st.targets), None)
+        if P is None:
+            chk.undecided("S8", "util.template_tag:_validate_params_with_code:defaults-index-frame", m.loc(x), "variable holding co_argcount not found")
+            continue
+        lin = _linear(fc, x.slice, {P, loopv or "i"})
         sliced = any(v is not None and isinstance(v, ast.Subscript) for _s, v in assignments(fc, dn))
         key = "util.template_tag:_validate_params_with_code:defaults-index-frame"
         if sliced:
             chk.undecided("S8", key, m.loc(x), "the defaults tuple is sliced; frame not evaluated")
             continue
-        want = {loopv or "i": 1, "positional_count": -1, f"len({dn})": 1}
+        want = {loopv or "i": 1, P: -1, f"len({dn})": 1}
         ok = lin == want
-        chk.ob("S8", key, m.loc(x), ok, f"{dn}[{norm(x.slice)}] == {dn}[i - positional_count + len({dn})]: counted from the end, so defaults of the skipped `context` parameter are accounted for" if ok else
+        chk.ob("S8", key, m.loc(x), ok, f"{dn}[{norm(x.slice)}] == {dn}[i - {P} + len({dn})]: counted from the end, so defaults of the skipped `context` parameter are accounted for" if ok else
                f"the index `{norm(x.slice)}` into `{dn}` is " + ("not a linear function of (i, positional_count, len(defaults)) - a clamp such as max(0, ...) is involved" if lin is None else f"{lin}") +
                f": when `context` itself has a default (def render(self, context=None, a='A')) the tuple is longer than the tag's own parameters and every default is taken from one slot too early")
     # (b) fallback signature: positional skip
@@ -383,7 +387,7 @@ def s7(chk: Check, proj: Project, m, fc) -> None:
 
 
 MANIFEST = {
-    "text": "Cross-checks the two argument validators as siblings (equal event sequences per phase and conditional depth), requires both to consult the positional-only boundary at the two points where Python's binding differs, classifies every raise, fixes that render receives exactly the validated arguments, that non-identifier keys are collected with duplicate detection, that mappings are recognised by the ABC, and that defaults are read per call.",
+    "text": "Cross-checks the two argument validators as siblings (equal event sequences per phase and conditional depth), requires both to consult the positional-only boundary at the two points where Python's binding differs, classifies every raise, fixes that render receives exactly the validated arguments, that non-identifier keys are collected with duplicate detection, that mappings are recognised by the ABC, and that defaults are read per call. Also: raw co_varnames is only used sliced to the parameters, the index into __defaults__ is a linear form counted from the end of the positional parameters, the fallback signature skips two parameters by position, and the 'already wrapped' marker is read from the function.",
     "note": "Trusted: the final render(self, context, *args, **kwargs) call is bound by CPython. Not decided: full equivalence with CPython's binding algorithm over signatures x call shapes (an enumeration, another family).",
     "technique": "static sibling cross-checking, dataflow/control-dependence requirements at kind-sensitive decision points, raise classification, single reaching definition",
 }
